@@ -12,6 +12,7 @@ func views() map[string]View {
 		"cdecode": newCDecodeView(),
 		"sim":     newSimView(),
 		"route":   newRouteView(),
+		"sdecode": sdecodeView{},
 	}
 }
 
